@@ -139,6 +139,7 @@ def build_univariate(chk):
     UNIV = uni.BASE + 'Univariate'
     configs = [(cls, {}, 'default') for cls in uni.CLASSES]
     configs.append(('GaussianKDE', {'bw_method': 'silverman'}, 'silverman'))
+    configs.append(('GaussianKDE', {'bw_method': 0.5}, 'scalar_bw'))
     configs.append(('GaussianKDE', {'sample_size': Sym(ir.var('ss', 'I'))}, 'sample_size'))
     configs.append(('Univariate', {}, 'wrapper'))
     for cls, kw, cfg in configs:
